@@ -37,10 +37,11 @@ type PropConfig struct {
 	// verified in the same run against a contract with a frame check (its clauses say which entries it touches)
 	ReceiverFrameAccessors map[string]string `json:"receiver_frame_accessors"`
 	// regexps on short keys: handlers whose events must take their addresses from the handler's own connection
-	EventAddress []string       `json:"event_address"`
-	SingleSender []SingleSender `json:"single_sender"`
-	SingleWriter []SingleSender `json:"single_writer"` // struct fields assigned (non-nil) in the listed functions only // channels (struct fields) that are sent on in the listed functions only
-	PathAxioms   map[string]int `json:"path_axioms"`   // tier -> maximum number of path components
+	EventAddress    []string       `json:"event_address"`
+	SingleSender    []SingleSender `json:"single_sender"`
+	UnbufferedChans []string       `json:"unbuffered_chans"` // regexps on short keys: functions whose channels must all be unbuffered
+	SingleWriter    []SingleSender `json:"single_writer"`    // struct fields assigned (non-nil) in the listed functions only // channels (struct fields) that are sent on in the listed functions only
+	PathAxioms      map[string]int `json:"path_axioms"`      // tier -> maximum number of path components
 	// returns that are unreachable under the contracts' assumptions, each reviewed and explained; any
 	// other unreachable return is reported as a vacuity violation
 	ExpectedDead map[string]string `json:"expected_dead"`
@@ -273,6 +274,24 @@ func cmdCheck(args []string) {
 			}
 		}
 		cfg.Assumes = append(cfg.Assumes, fmt.Sprintf("receiver-frame rule (back end: go/ssa, structural): %d handlers decided: no store, map update or delete whose target is reached from the receiver by field selection, indexing and loads, in the handler, the closures that capture the receiver and the module functions it hands the receiver to (three levels); accessors exempt because verified against their own contract: %s; not covered: writes made by functions that receive a pointer loaded from the receiver (not the receiver itself), and by interface or third-party methods", cnt, strings.Join(accNames, ", ")))
+	}
+	if len(cfg.UnbufferedChans) > 0 {
+		var fl []*ssa.Function
+		for fn := range L.allFuncs {
+			fl = append(fl, fn)
+		}
+		sort.Slice(fl, func(i, j int) bool { return L.funcKey(fl[i]) < L.funcKey(fl[j]) })
+		cnt := 0
+		for _, fn := range fl {
+			for _, re := range cfg.UnbufferedChans {
+				if m, _ := regexp.MatchString("^(?:"+re+")$", L.funcKeyShort(fn)); m {
+					all = append(all, L.unbufferedChans(fn)...)
+					cnt++
+					break
+				}
+			}
+		}
+		cfg.Assumes = append(cfg.Assumes, fmt.Sprintf("unbuffered-channel rule (back end: go/ssa, structural): %d handlers make only unbuffered channels", cnt))
 	}
 	if len(cfg.SingleWriter) > 0 {
 		sw := L.singleWriterRule(cfg.SingleWriter)
